@@ -580,6 +580,10 @@ def child_family(tier="quick"):
         add("child-%s-ok" % form, chain(("L", launch(form)), Z), child_ok, form=form)
         add("child-%s-fails" % form, chain(("L", launch(form)), Z), child_fail, form=form)
         add("child-%s-fails-caught" % form, chain(("L", launch(form, Catch=[{"ErrorEquals": ["States.TaskFailed"], "Next": "Z", "ResultPath": "$.err"}])), Z), child_fail, form=form)
+    # the Task Resource given indirectly through the environment ("$NAME"): everything that depends on the resource form must use the resolved ARN
+    add("child-sync2-resource-from-env", chain(("L", dict(launch("sync2"), Resource="$LSFVERIF_CHILD_RES")), Z), child_ok, form="sync2", env={"LSFVERIF_CHILD_RES": SFN + "startExecution.sync:2"})
+    add("child-sync-resource-from-env", chain(("L", dict(launch("sync"), Resource="$LSFVERIF_CHILD_RES1")), Z), child_ok, form="sync", env={"LSFVERIF_CHILD_RES1": SFN + "startExecution.sync"})
+    add("child-resource-env-missing", chain(("L", dict(launch("sync"), Resource="$LSFVERIF_NOT_SET")), Z), child_ok, form="invalid")
     add("child-sdk-express-ok", chain(("L", launch("sdk")), Z), child_ok, ctype="EXPRESS", form="sdk")
     add("child-sdk-express-fails", chain(("L", launch("sdk")), Z), child_fail, ctype="EXPRESS", form="sdk")
     add("child-sync-express-child", chain(("L", launch("sync")), Z), child_ok, ctype="EXPRESS", form="sync")
@@ -600,6 +604,10 @@ def child_family(tier="quick"):
         add("child-%s-child-times-out-in-task" % form, chain(("L", launch(form)), Z), cs, workers={"fslow": {"*": [["delay", ["ok", 1]]]}}, form="sync-child-timeout")
     add("child-sync-child-times-out-caught", chain(("L", launch("sync", Catch=[{"ErrorEquals": ["States.ALL"], "Next": "Z", "ResultPath": "$.err"}])), Z), cw, form="sync-child-timeout")
     add("child-sdk-express-child-times-out", chain(("L", launch("sdk")), Z), cw, ctype="EXPRESS", form="sync-child-timeout")
+    # it is the parent *execution* that runs out of time (machine-level TimeoutSeconds) while the child is blocked in a Task / Wait
+    pm = chain(("L", launch("sync")), Z); pm["TimeoutSeconds"] = 2
+    add("child-sync-parent-exec-timeout-child-task", pm, child_slow, workers={"fslow": {"*": [["delay", ["ok", 1]]]}}, form="sync-timeout")
+    add("child-sync-parent-exec-timeout-child-wait", copy.deepcopy(pm), child_wait, form="sync-timeout")
     # the child is cancelled (its parent timed out) while it is itself inside a fan-out
     child_par = chain(("CP", Parallel([chain(("CW1", Wait(10))), chain(("CT1", Task("fslow")))])), ("CZ", Pass()))
     add("child-sync-parent-timeout-child-in-parallel", chain(("L", launch("sync", TimeoutSeconds=2)), Z), child_par, workers={"fslow": {"*": [["delay", ["ok", 1]]]}}, form="sync-timeout")
